@@ -9,7 +9,7 @@ use serde::{Deserialize, Serialize};
 use serde_json::json;
 use std::cell::Cell;
 
-const RULE: &str = "cases = (macro group, variant Some/None/Ok/Err, payload, second payload); every option::/result:: macro in every accepted argument form (inline closure, closure with pattern parameter, function path) is compared with the std method of the same name on the same value, the fallback/mapper call counter must equal std's (0 or 1), and with effectful subject / value-argument expressions the number of evaluations must equal the method call's (each exactly once); try_!/try_opt! (with and without map_err) against `?`; min!/max!/min_by!/max_by!/min_by_key!/max_by_key! against std::cmp on keyed values with distinguishable identity (which argument is returned, incl. equal keys) and on primitives; non-trivial = the variant that triggers the fallback, boundary payloads, equal keys with different tags; distinct by the whole case";
+const RULE: &str = "cases = (macro group, variant Some/None/Ok/Err, payload, second payload); every option::/result:: macro in every accepted argument form (inline closure, closure with pattern parameter, function path) is compared with the std method of the same name on the same value, the fallback/mapper call counter must equal std's (0 or 1), and with effectful subject / value-argument expressions the number of evaluations must equal the method call's (each exactly once) and, for the option:: / result:: macros, their order too (receiver before argument); try_!/try_opt! (with and without map_err) against `?`; min!/max!/min_by!/max_by!/min_by_key!/max_by_key! against std::cmp on keyed values with distinguishable identity (which argument is returned, incl. equal keys) and on primitives; non-trivial = the variant that triggers the fallback, boundary payloads, equal keys with different tags; distinct by the whole case";
 
 #[derive(Serialize, Deserialize, Debug, Clone, Hash)]
 struct Case {
@@ -34,6 +34,18 @@ fn calls() -> u32 {
 }
 fn tick() {
     CALLS.with(|c| c.set(c.get() + 1));
+}
+thread_local! {
+    /// order-sensitive trace of the argument expressions that were evaluated
+    static TRACE: Cell<u64> = const { Cell::new(0) };
+}
+fn trace() -> u64 {
+    TRACE.with(|c| c.replace(0))
+}
+/// marks "argument expression #id was evaluated now"
+fn at(id: u64) {
+    TRACE.with(|c| c.set(c.get().wrapping_mul(10).wrapping_add(id)));
+    tick();
 }
 // function-path forms
 fn fb() -> i64 {
@@ -73,12 +85,14 @@ fn pred(x: &i64) -> bool {
 macro_rules! same {
     ($name:literal, $k:expr, $o:expr) => {{
         calls();
+        trace();
         let k = $k;
-        let kc = calls();
+        let (kc, kt) = (calls(), trace());
         let o = $o;
-        let oc = calls();
+        let (oc, ot) = (calls(), trace());
         ensure!(k == o, "{}: konst {:?} std {:?}", $name, k, o);
         ensure!(kc == oc, "{}: konst called the closure/function {} time(s), std {}", $name, kc, oc);
+        ensure!(kt == ot, "{}: konst evaluated its argument expressions in the order {}, the method call in the order {}", $name, kt, ot);
     }};
 }
 
@@ -106,8 +120,8 @@ fn option_macros(v: Option<i64>, b: i64) -> Result<(), String> {
     }
     // argument expressions with an effect: like the method call, every macro evaluates its subject and its value
     // argument exactly once, whichever variant the subject has (the call counter sees a skipped or repeated one)
-    same!("option::unwrap_or!(effectful arguments)", option::unwrap_or!({ tick(); v }, { tick(); tick(); b }), { tick(); v }.unwrap_or({ tick(); tick(); b }));
-    same!("option::ok_or!(effectful arguments)", option::ok_or!({ tick(); v }, { tick(); tick(); b }), { tick(); v }.ok_or({ tick(); tick(); b }));
+    same!("option::unwrap_or!(effectful arguments)", option::unwrap_or!({ at(1); v }, { at(2); b }), { at(1); v }.unwrap_or({ at(2); b }));
+    same!("option::ok_or!(effectful arguments)", option::ok_or!({ at(1); v }, { at(2); b }), { at(1); v }.ok_or({ at(2); b }));
     same!("option::unwrap_or_else!(effectful subject)", option::unwrap_or_else!({ tick(); v }, fb), { tick(); v }.unwrap_or_else(fb));
     same!("option::ok_or_else!(effectful subject)", option::ok_or_else!({ tick(); v }, fb), { tick(); v }.ok_or_else(fb));
     same!("option::map!(effectful subject)", option::map!({ tick(); v }, mapper), { tick(); v }.map(mapper));
@@ -140,7 +154,7 @@ fn result_macros(v: Result<i64, i64>, b: i64) -> Result<(), String> {
     same!("result::and_then!(fn)", result::and_then!(v, res_mapper), v.and_then(res_mapper));
     same!("result::or_else!(closure)", result::or_else!(v, |e| { tick(); if e > b { Ok::<i64, i64>(e) } else { Err(b) } }), v.or_else(|e| { tick(); if e > b { Ok::<i64, i64>(e) } else { Err(b) } }));
     same!("result::or_else!(fn)", result::or_else!(v, res_mapper), v.or_else(res_mapper));
-    same!("result::unwrap_or!(effectful arguments)", result::unwrap_or!({ tick(); v }, { tick(); tick(); b }), { tick(); v }.unwrap_or({ tick(); tick(); b }));
+    same!("result::unwrap_or!(effectful arguments)", result::unwrap_or!({ at(1); v }, { at(2); b }), { at(1); v }.unwrap_or({ at(2); b }));
     same!("result::unwrap_or_else!(effectful subject)", result::unwrap_or_else!({ tick(); v }, mapper), { tick(); v }.unwrap_or_else(mapper));
     same!("result::ok!(effectful subject)", result::ok!({ tick(); v }), { tick(); v }.ok());
     same!("result::err!(effectful subject)", result::err!({ tick(); v }), { tick(); v }.err());
@@ -298,20 +312,24 @@ fn minmax_keyed(a: i64, b: i64) -> Result<(), String> {
     macro_rules! counted {
         ($name:literal, $k:expr, $o:expr) => {{
             calls();
+            trace();
             let k: K = $k;
-            let kc = calls();
+            let (kc, kt) = (calls(), trace());
             let o: K = $o;
-            let oc = calls();
+            let (oc, ot) = (calls(), trace());
+            // (the order is not compared here: max!/max_by!/max_by_key! are min with swapped operands by design, which
+            // evaluates the right operand first; the statement only fixes which argument is returned)
+            let _ = (kt, ot);
             ensure!(k.tag == o.tag && k.key == o.key, "{}(keys {a},{b}): konst returned argument #{} std argument #{}", $name, k.tag, o.tag);
             ensure!(kc == oc, "{}(keys {a},{b}): konst evaluated its arguments / key function {} time(s), std {}", $name, kc, oc);
         }};
     }
-    counted!("min!(effectful arguments)", min!({ tick(); l }, { tick(); tick(); r }), std::cmp::min({ tick(); l }, { tick(); tick(); r }));
-    counted!("max!(effectful arguments)", max!({ tick(); l }, { tick(); tick(); r }), std::cmp::max({ tick(); l }, { tick(); tick(); r }));
-    counted!("min_by!(effectful arguments)", min_by!({ tick(); l }, { tick(); tick(); r }, cmp_k), std::cmp::min_by({ tick(); l }, { tick(); tick(); r }, cmp_k));
-    counted!("max_by!(effectful arguments)", max_by!({ tick(); l }, { tick(); tick(); r }, cmp_k), std::cmp::max_by({ tick(); l }, { tick(); tick(); r }, cmp_k));
-    counted!("min_by_key!(counted key fn)", min_by_key!({ tick(); l }, { tick(); tick(); r }, |x| { tick(); tick(); tick(); tick(); x.key }), std::cmp::min_by_key({ tick(); l }, { tick(); tick(); r }, |x| { tick(); tick(); tick(); tick(); x.key }));
-    counted!("max_by_key!(counted key fn)", max_by_key!({ tick(); l }, { tick(); tick(); r }, |x| { tick(); tick(); tick(); tick(); x.key }), std::cmp::max_by_key({ tick(); l }, { tick(); tick(); r }, |x| { tick(); tick(); tick(); tick(); x.key }));
+    counted!("min!(effectful arguments)", min!({ at(1); l }, { at(2); r }), std::cmp::min({ at(1); l }, { at(2); r }));
+    counted!("max!(effectful arguments)", max!({ at(1); l }, { at(2); r }), std::cmp::max({ at(1); l }, { at(2); r }));
+    counted!("min_by!(effectful arguments)", min_by!({ at(1); l }, { at(2); r }, cmp_k), std::cmp::min_by({ at(1); l }, { at(2); r }, cmp_k));
+    counted!("max_by!(effectful arguments)", max_by!({ at(1); l }, { at(2); r }, cmp_k), std::cmp::max_by({ at(1); l }, { at(2); r }, cmp_k));
+    counted!("min_by_key!(counted key fn)", min_by_key!({ at(1); l }, { at(2); r }, |x| { tick(); tick(); tick(); tick(); x.key }), std::cmp::min_by_key({ at(1); l }, { at(2); r }, |x| { tick(); tick(); tick(); tick(); x.key }));
+    counted!("max_by_key!(counted key fn)", max_by_key!({ at(1); l }, { at(2); r }, |x| { tick(); tick(); tick(); tick(); x.key }), std::cmp::max_by_key({ at(1); l }, { at(2); r }, |x| { tick(); tick(); tick(); tick(); x.key }));
     Ok(())
 }
 
